@@ -38,6 +38,10 @@ UnkBytes(M) ==
     LET nums == {S[M].nums[i] : i \in 1..Len(S[M].nums)}
     IN RecVarint(CHOOSE n \in 1990..2040 : n \notin nums, <<1, 0, 0, 0, 0, 0, 0, 0, 0, 0>>)
 
+UnkBytes2(M) ==
+    LET nums == {S[M].nums[i] : i \in 1..Len(S[M].nums)}
+    IN RecVarint(CHOOSE n \in 1990..2040 : n \notin nums, <<7, 0, 0, 0, 0, 0, 0, 0, 0, 0>>)
+
 \* mutating operations on field fd of the message at path p (of type M)
 RECURSIVE WrOps(_, _, _)
 RECURSIVE FieldWr(_, _, _, _)
@@ -81,7 +85,8 @@ FieldWr(M, p, fd, depth) ==
 WrOps(M, p, depth) ==
     LET fs == FieldsOf(S, M)
     IN ConcatAll([i \in 1..Len(fs) |-> FieldWr(M, p, fs[i], depth)])
-       \o << W(MkOp("SetUnknown", p, 0), "u", UnkBytes(M)), W(MkOp("SetUnknown", p, 0), "u", <<>>) >>
+       \o << W(MkOp("SetUnknown", p, 0), "u", UnkBytes(M)), W(MkOp("SetUnknown", p, 0), "u", <<>>),
+             W(MkOp("SetUnknownHold", p, 0), "u", UnkBytes2(M)) >>
 
 \* read operations on the message at path p
 RECURSIVE RdOpsAt(_, _, _)
@@ -95,7 +100,8 @@ FieldRd(M, p, fd, depth) ==
              [] fd.card = "map" ->
                  << W(b, "op", "MLen"), W(W(b, "op", "MLen"), "via", "get"), W(W(b, "op", "MHas"), "k", Pool(fd.kk)[1]),
                     W(W(b, "op", "MGet"), "k", Pool(fd.kk)[1]), W(W(b, "op", "MGet"), "k", Pool(fd.kk)[2]),
-                    W(W(b, "op", "MRange"), "via", "get"), W(W(b, "op", "MIsValid"), "via", "get"), W(b, "op", "MNewValue") >>
+                    W(W(b, "op", "MRange"), "via", "get"), W(W(b, "op", "MRangeFirst"), "via", "get"),
+                    W(W(b, "op", "MIsValid"), "via", "get"), W(b, "op", "MNewValue") >>
                  \o (IF fd.vk = "message" /\ depth > 0 THEN RdOpsAt(fd.vmsg, Append(p, StepK(fd.num, Pool(fd.kk)[1])), depth - 1) ELSE <<>>)
              [] fd.kind = "message" ->
                  (IF depth > 0 THEN RdOpsAt(fd.msg, Append(p, StepF(fd.num)), depth - 1) ELSE <<>>)
@@ -105,7 +111,7 @@ RdOpsAt(M, p, depth) ==
     LET fs == FieldsOf(S, M)
     IN ConcatAll([i \in 1..Len(fs) |-> FieldRd(M, p, fs[i], depth)])
        \o [o \in 1..S[M].oneofs |-> W(MkOp("Which", p, 0), "oo", o)]
-       \o << MkOp("Range", p, 0), MkOp("GetUnknown", p, 0), MkOp("IsValid", p, 0) >>
+       \o << MkOp("Range", p, 0), MkOp("RangeFirst", p, 0), MkOp("GetUnknown", p, 0), MkOp("IsValid", p, 0) >>
 
 Depth == atoi(IOEnv.VERIF_DEPTH)
 Ops   == WrOps(T, <<>>, Depth) \o << MkOp("Reset", <<>>, 0) >>
